@@ -43,7 +43,20 @@ done
 [ $asan_fail -ne 0 ] && rc=1
 # 3. Miri
 ( cd $V/harness && cargo +nightly miri setup > $W/miri-setup.log 2>&1 ) || { echo "miri setup failed (inconclusive)"; tail -5 $W/miri-setup.log; exit 2; }
-( cd $V/harness && MIRIFLAGS="-Zmiri-disable-isolation -Zmiri-ignore-leaks" cargo +nightly miri run --target-dir $V/work/target-miri --bin vmini -- C10 0 0 $W/miri-stats-warm.json > $W/miri-build.log 2>&1 ) || { echo "Miri build/run failed (inconclusive)"; tail -20 $W/miri-build.log; exit 2; }
+# (this first run also replays the committed corpus tapes under Miri)
+( cd $V/harness && MIRIFLAGS="-Zmiri-disable-isolation -Zmiri-ignore-leaks" cargo +nightly miri run --target-dir $V/work/target-miri --bin vmini -- C10 0 0 $W/miri-stats-warm.json > $W/miri-build.log 2>&1 ) || {
+	if grep -q "Undefined Behavior\|^VIOLATION" $W/miri-build.log; then
+		if grep -q "^VIOLATION" $W/miri-build.log; then grep -A2 "^VIOLATION" $W/miri-build.log; else
+			grep -v "^warning" $W/miri-build.log | grep -B2 -A25 "Undefined Behavior" > $W/violations-miri-report-warm.txt
+			mkdir -p $W/violations; cp $W/miri-stats-warm.json.inflight.tape $W/violations/miri-report-corpus.tape 2>/dev/null
+			echo "VIOLATION property=C10 replay=$W/violations/miri-report-corpus.tape"
+			echo "  (replay under the detector: VERIF_ENGINE=miri ./check C10 --replay <tape>; report: $W/violations-miri-report-warm.txt)"
+			echo "  signature: miri/undefined-behavior (corpus replay)"
+			grep -m2 "Undefined Behavior" $W/miri-build.log
+		fi
+		exit 1
+	fi
+	echo "Miri build/run failed (inconclusive)"; tail -20 $W/miri-build.log; exit 2; }
 pids=()
 for i in $(seq 0 15); do
 	( cd $V/harness && MIRIFLAGS="-Zmiri-disable-isolation -Zmiri-ignore-leaks -Zmiri-seed=$((SEED+i))" cargo +nightly miri run --target-dir $V/work/target-miri --bin vmini -- C10 $MIRI_N $((SEED*1000+500+i)) $W/miri-stats-$i.json > $W/miri-$i.log 2>&1 ) &
